@@ -261,7 +261,7 @@ def run_fuzz(pid, cfg, seed):
         cache = os.path.join(WORK, "fuzzcache", pid.lower())
         os.makedirs(cache, exist_ok=True)
         cmd = ["go", "test", "-tags", "verif", "-vet=off"] + modfile_args() + ["-run", "^$", "-fuzz", "^%s$" % name, "-fuzztime", ftime,
-               "-test.fuzzcachedir", cache, "./props/" + pid.lower()]
+               "./props/" + pid.lower(), "-test.fuzzcachedir", cache]
         t0 = time.time()
         r = subprocess.run(cmd, cwd=ROOT, env=env({"VERIF_TIER": "thorough", "VERIF_FUZZ": "1"}), stdout=subprocess.PIPE, stderr=subprocess.STDOUT, text=True)
         out = r.stdout
@@ -360,6 +360,10 @@ def main():
     kf = known_findings()
     for k, cnt in sorted(known_hits.items()):
         what = kf.get(k, {}).get("what", "")
+        if not what:
+            for kk, vv in kf.items():
+                if kk.endswith("*") and k.startswith(kk[:-1]):
+                    what = vv.get("what", "")
         print("KNOWN-FINDING: property=%s key=%s hits=%d %s" % (pid, k, cnt, what))
     print("EVIDENCE property=%s tier=%s evaluations=%d distinct_nontrivial=%d wall=%.1fs" % (pid, tier, cov["evaluations"], cov["distinct_nontrivial"], time.time() - t0))
     for name, sc in cov["sub_checks"].items():
@@ -373,25 +377,25 @@ def main():
             seen.add((key, rp))
             print("VIOLATION property=%s replay=%s" % (pid, rp))
             print("  key=%s %s" % (key, (msg or "")[:600]))
-        keep_logs(shards)
+        keep_logs(shards, pid)
         sys.exit(1)
     if status == "infra":
         for s, rc, st, rp, key, msg in results:
             if st == "infra":
                 print("INFRA property=%s shard=%d rc=%d\n%s" % (pid, s.idx, rc, msg))
-        keep_logs(shards)
+        keep_logs(shards, pid)
         sys.exit(2)
     if cov["evaluations"] < 1 or cov["distinct_nontrivial"] < 2:
         print("INFRA property=%s: run produced no usable evidence" % pid)
-        keep_logs(shards)
+        keep_logs(shards, pid)
         sys.exit(2)
     for s in shards:
         shutil.rmtree(s.dir, ignore_errors=True)
     sys.exit(0)
 
 
-def keep_logs(shards):
-    d = os.path.join(WORK, "lastfail")
+def keep_logs(shards, pid="misc"):
+    d = os.path.join(WORK, "lastfail", pid.lower())
     shutil.rmtree(d, ignore_errors=True)
     os.makedirs(d, exist_ok=True)
     for s in shards:
